@@ -22,7 +22,7 @@ from vlib.core import *
 
 SRCS = ["harness/c17.cpp"]
 REPO_CPP = ["babylon/concurrent/*.cpp", "babylon/reusable/page_allocator.cpp", "babylon/new.cpp"]
-MODES = ["cached", "heap", "counting", "batch", "batchheap", "strict", "auto"]
+MODES = ["cached", "heap", "counting", "batch", "batchheap", "fullrace", "strict", "auto"]
 CORPUS = VERIF / "corpus" / "C17"
 
 
@@ -115,7 +115,8 @@ def _classify(ctx, r, tag, env, dist, distinct, samples, lockstep=True):
             dist["replay_ok"] += 1
         else:
             dist["replay_diverge"] += 1
-            ctx.broke("correspondence", "E-CONC lock-step c17 mode=%s seed=%d" % (tag, r["seed"]), "%s\n%s" % (r["replay"], text))
+            if dist["replay_diverge"] <= 6:
+                ctx.broke("correspondence", "E-CONC lock-step c17 mode=%s seed=%d" % (tag, r["seed"]), "%s\n%s" % (r["replay"], text))
     if len(samples) < 1 and tag == "cached" and f["comp_push"] and f["switch_inside"] and len(r["lines"]) > 80:
         samples.append(r["lines"][:80])
 
@@ -142,7 +143,10 @@ def run(ctx):
         return
     n = 100 if ctx.quick else 2500
     if ctx.broken:
+        # a proof obligation / generated obligation no longer checks: ENLARGE the search for a concrete failing
+        # input (only concrete failing inputs end the search early, never a broken obligation)
         n *= 4
+        ctx.log("obligations broken before the correspondence: enlarging the search x4")
     seed0 = ctx.seed * 1000003
     dist = {"modes": {}, "verdicts": {}, "replay_ok": 0, "replay_diverge": 0, "oracle": 0, "races": 0, "max_trace": 0, "features": {}, "config": {}}
     distinct = set()
@@ -161,7 +165,7 @@ def run(ctx):
     # PCT (strict priorities) only where every wait sleeps or yields: the compensating loop busy-waits
     # without a yield after a failed compensation, which a strict-priority scheduler never leaves
     plan.append(("strict", seed0 + 500000, n // 2, {"VRT_STRATEGY": "pct"}, "strict/pct"))
-    for m in ("cached", "batch", "auto"):
+    for m in ("cached", "batch", "fullrace", "auto"):
         plan.append((m, seed0 + 700000, n // 2, {"VRT_STICK": "0"}, m + "/fine"))
     plan.append(("seq", seed0, n, {}, "seq/vrt"))
     for mode, s0, cnt, env, tag in plan:
@@ -169,19 +173,19 @@ def run(ctx):
         dist["modes"][tag] = dist["modes"].get(tag, 0) + len(runs)
         for r in runs:
             _classify(ctx, r, tag if "/corpus" not in tag else mode, env, dist, distinct, samples)
-            if len(ctx.failing) + len(ctx.broken) > 8:
+            if len(ctx.failing) > 8:
                 break
-        if len(ctx.failing) + len(ctx.broken) > 8:
+        if len(ctx.failing) > 8:
             break
     # E-SEQ: single-threaded histories on the ASan+UBSan build, events only
-    if len(ctx.failing) + len(ctx.broken) <= 8:
+    if len(ctx.failing) <= 8:
         runs = ctx.econc(seq, drv, ["seq"], seed0 + 900000, 2 * n)
         dist["modes"]["seq/asan"] = len(runs)
         for r in runs:
             _classify(ctx, r, "seq/asan", {}, dist, distinct, samples)
     # fixed cases outside the token model (oracle / sanitizer verdict only): pooled-handle move assignment,
     # BatchPageAllocator with its default batch size
-    if len(ctx.failing) + len(ctx.broken) <= 8:
+    if len(ctx.failing) <= 8:
         for mode in ("handles", "batchdefault"):
             runs = ctx.econc(seq, None, [mode], 1, 1)
             dist["modes"][mode] = len(runs)
